@@ -3,6 +3,7 @@ package main
 import (
 	"flag"
 	"fmt"
+	"golang.org/x/tools/go/ssa"
 	"os"
 	"strings"
 )
@@ -101,6 +102,51 @@ func init() {
 						}
 					}
 				}
+			}
+		}
+	}
+}
+
+func init() {
+	extraDumps["errpos"] = func(t *Tree, name string) {
+		scopes := map[string]map[*ssa.Function]bool{"run": runScope(t), "check": checkScope(t)}
+		v2, _ := v2Scope(t)
+		scopes["v2"] = v2
+		for _, sn := range []string{"run", "check", "v2"} {
+			cnt := map[string]int{}
+			for f := range scopes[sn] {
+				allInstrs(f, func(in ssa.Instruction) {
+					call, ok := in.(*ssa.Call)
+					if !ok {
+						return
+					}
+					cal := call.Call.StaticCallee()
+					if cal == nil {
+						return
+					}
+					var posArg ssa.Value
+					switch {
+					case cal.Name() == "NewRunError" && len(call.Call.Args) == 3:
+						posArg = call.Call.Args[2]
+					case funcIs(cal, pErr, "NewErr"):
+						posArg = call.Call.Args[1]
+					default:
+						return
+					}
+					rt := rootOf(posArg)
+					p := fmt.Sprintf("%T:%s", rt, path(posArg))
+					if prm, ok := rt.(*ssa.Parameter); ok {
+						p = fmt.Sprintf("param(%s ast=%v)", prm.Name(), isAstTyped(prm.Type()))
+					}
+					cnt[p]++
+					if name != "" && strings.Contains(p, name) {
+						fmt.Println("   ", sn, relName(f), t.Pos(call.Pos()), p)
+					}
+				})
+			}
+			fmt.Println("==", sn, len(scopes[sn]), "functions")
+			for _, k := range sortedKeys(cnt) {
+				fmt.Printf("  %4d %s\n", cnt[k], k)
 			}
 		}
 	}
